@@ -780,15 +780,15 @@ def blocks_magnitude(tier):
         def gs(D=D, k=k):
             for lab, f in XSL_SHAPES:
                 # compiling nested instructions costs time quadratic in the depth (measured: 0.7 s at 2^10, 11 s at 2^12; xsl:choose 4x that):
-                # only xsl:if goes to the full depth, the other nesting shapes stop two powers earlier
+                # only xsl:if goes to 2^(kmax-1), the other nesting shapes stop at 2^(kmax-2)
                 nesting = lab.endswith('-nesting')
-                if nesting and k > (kmax - 2 if lab != 'xsl:if-nesting' else kmax) - (0 if thorough else 1):
+                if nesting and k > (kmax - 2 if lab != 'xsl:if-nesting' else kmax - 1) - (0 if thorough else 1):
                     continue
                 x = S('<xsl:output omit-xml-declaration="yes"/><xsl:template match="/"><o>' + f(D) + '</o></xsl:template>')
                 for en in ('stream', 'compiled-st'):
                     if nesting and k > kmax - 2 and en != 'stream':
                         continue
-                    yield tr_case('magnitude', x, DOC1, '%s:2^%d' % (lab, k), en, timeout={13: 200, 14: 800}.get(k, 60) if nesting else 30)
+                    yield tr_case('magnitude', x, DOC1, '%s:2^%d' % (lab, k), en, timeout={12: 100, 13: 300}.get(k, 60) if nesting else 30)
             # template recursion of depth D (with a base case) by name and by apply-templates
             rec = S('<xsl:output omit-xml-declaration="yes"/><xsl:template match="/"><o><xsl:call-template name="t"><xsl:with-param name="n" select="%d"/></xsl:call-template></o></xsl:template>'
                     '<xsl:template name="t"><xsl:param name="n"/><xsl:if test="$n &gt; 0"><xsl:call-template name="t"><xsl:with-param name="n" select="$n - 1"/></xsl:call-template></xsl:if>'
@@ -1432,10 +1432,13 @@ class Shard:
         shutil.rmtree(self.dir, ignore_errors=True)
 
 
-def shard_main(shard, nshards, tier):
+DEADLINE_S = {'quick': 165, 'thorough': 1140}
+
+
+def shard_main(shard, nshards, tier, t_start):
     sh = Shard(shard, tier)
     try:
-        return shard_body(sh, shard, nshards, tier)
+        return shard_body(sh, shard, nshards, tier, t_start)
     except BaseException:
         # a harness error: leave a trace where it can be read while the other shards still run, and no stray driver
         import traceback
@@ -1448,7 +1451,9 @@ def shard_main(shard, nshards, tier):
         raise
 
 
-def shard_body(sh, shard, nshards, tier):
+def shard_body(sh, shard, nshards, tier, t_start):
+    deadline = t_start + float(os.environ.get('C03_DEADLINE_S', DEADLINE_S.get(tier, 1140)))
+    skipped = {}
     blocks = all_blocks(tier)
     first = {}
     lastc = {}
@@ -1457,6 +1462,10 @@ def shard_body(sh, shard, nshards, tier):
     fam_time = {}
     for bi, (fam, weight, gen) in enumerate(blocks):
         if bi % nshards != shard:
+            continue
+        if time.time() > deadline:
+            # the global deadline stops a shard BETWEEN blocks; what was not run is counted and the evidence says exhaustive:false
+            skipped[fam] = skipped.get(fam, 0) + weight
             continue
         tb = time.time()
         for c in gen():
@@ -1468,7 +1477,7 @@ def shard_body(sh, shard, nshards, tier):
                 mid[c['fam']] = case_text(c, 200)
         fam_time[fam] = fam_time.get(fam, 0) + time.time() - tb
     sh.finish()
-    return {'counts': sh.counts, 'fam': sh.fam, 'slow': sh.slow, 'suspended': sorted(sh.suspended), 'outcomes': sh.outcomes, 'viols': sh.viols,
+    return {'counts': sh.counts, 'fam': sh.fam, 'skipped': skipped, 'slow': sh.slow, 'suspended': sorted(sh.suspended), 'outcomes': sh.outcomes, 'viols': sh.viols,
             'samples': {f: [first[f], mid.get(f, first[f]), lastc[f]] for f in first}, 'fam_time': fam_time, 'wall': time.time() - t0}
 
 
@@ -1520,11 +1529,12 @@ def main():
     if rp:
         return replay(rp)
     t0 = time.time()
-    res = vlib.run_sharded(shard_main, (tier,))
+    res = vlib.run_sharded(shard_main, (tier, t0))
     counts = vlib.merge_counts([r['counts'] for r in res])
     fam = vlib.merge_counts([r['fam'] for r in res])
     outcomes = vlib.merge_counts([r['outcomes'] for r in res])
     fam_time = vlib.merge_counts([r['fam_time'] for r in res])
+    skipped = vlib.merge_counts([r['skipped'] for r in res])
     merged = {}
     for r in res:
         for sig, v in r['viols'].items():
@@ -1578,7 +1588,8 @@ def main():
         'signatures': {sig: merged[sig]['n'] for sig in sorted(merged)},
         'shard_wall_s': [round(r['wall'], 1) for r in res],
         'slowest_requests_s': sorted([tuple(x) for r in res for x in r['slow']], reverse=True)[:12],
-        'exhaustive': not ONLY and counts['suspended_construct_evaluations'] == 0,
+        'exhaustive': not ONLY and counts['suspended_construct_evaluations'] == 0 and not skipped,
+        'deadline_hit': bool(skipped), 'cases_not_run_after_the_deadline': skipped,
     }
     if ONLY:
         cov['restricted_to_families'] = ONLY
